@@ -798,6 +798,30 @@ func c10Scenario(t *testing.T, in c10Input, work string, idx int, probe bool) (o
 		_, obs.Writes = c10CoqDocs(cache.writes)
 		cache.writes = nil
 	}
+	if probe && in.Client != "file" {
+		// (the order in which the store visits its map differs from run to run, so the sanity pass may have met a
+		// complete store where this one is not) a declared name that was neither fetched successfully nor offered by
+		// the cache cannot have a value: say so instead of letting the poll below dereference the stub in a goroutine
+		// nobody can recover from
+		got := map[string]bool{}
+		for _, rq := range obs.Reqs {
+			if rq.Ver != 0 {
+				got[rq.Name] = true
+			}
+		}
+		if in.Cache == "doc" {
+			for _, e := range in.CacheDoc {
+				if e.Kind == "ok" {
+					got[e.Name] = true
+				}
+			}
+		}
+		for _, n := range c10Distinct(c10Declared(in)) {
+			if !got[n] {
+				return obs, &DirectVerdict{OK: false, What: fmt.Sprintf("NewStore succeeded although the declared secret %q was neither in the cache nor ever fetched successfully", n)}
+			}
+		}
+	}
 	if probe {
 		// probe poll
 		time.Sleep(time.Duration(in.ProbeDtS) * time.Second)
